@@ -87,8 +87,28 @@ class CmpElementwise(object):
     __hash__ = object.__hash__
 
 
-# values with a non-standard equality are single objects, always compared by IDENTITY here
-OBJECTS = {-10: EqAll(), -11: EqNone(), -12: CmpRaises(), -13: CmpElementwise(), -14: inspect.Parameter.empty}
+REPR_CALLS = [0]   # how often repr()/str() of a hostile value or receiver was asked for
+
+
+class ReprRaises(object):
+    """repr()/str() raise (ValueError, the class filter_args' own error branches raise)"""
+    def __repr__(self):
+        REPR_CALLS[0] += 1
+        raise ValueError("hostile __repr__")
+    __str__ = __repr__
+
+
+class ReprCounts(object):
+    """repr()/str() work but are counted (stands for an expensive or side-effecting __repr__)"""
+    def __repr__(self):
+        REPR_CALLS[0] += 1
+        return "<ReprCounts>"
+    __str__ = __repr__
+
+
+# values with a non-standard equality / repr are single objects, always compared by IDENTITY here
+OBJECTS = {-10: EqAll(), -11: EqNone(), -12: CmpRaises(), -13: CmpElementwise(), -14: inspect.Parameter.empty,
+           -15: ReprRaises(), -16: ReprCounts()}
 SPECIAL = {-1: None, -2: False, -3: "", -4: (), -5: True}
 SPECIAL.update(OBJECTS)
 
@@ -219,6 +239,10 @@ def as_callable(f, meth, receiver="plain"):
         bases = (dict,)
     elif receiver == "zero":
         bases = (int,)
+    elif receiver == "repr_raises":
+        ns["__repr__"] = ns["__str__"] = ReprRaises.__repr__
+    elif receiver == "repr_counts":
+        ns["__repr__"] = ns["__str__"] = ReprCounts.__repr__
     elif receiver == "slots":
         ns["__slots__"] = ()
     elif receiver == "classmethod":
@@ -294,6 +318,8 @@ def run_group(g):
     meth = g.get("meth")
     funcs = make_all(g)
     out = []
+    args_as = g.get("args_as", "tuple")
+    shared = {}
     for call in g["calls"]:
         pos, kw, ign = call[0], call[1], call[2]
         entry = funcs[call[3] if len(call) > 3 else 0]
@@ -316,15 +342,30 @@ def run_group(g):
             r["insp"] = insp
         except TypeError:
             r["insp"] = None
+        # how the positional arguments are handed over: Memory passes a tuple; other callers pass lists
+        # (possibly one list object they keep using), ranges, ...
+        if args_as == "list":
+            a = list(pos)
+        elif args_as == "shared_list":
+            a = shared.setdefault(json.dumps(call[0]), list(pos))
+        elif args_as == "range" and pos and all(type(v) is int for v in pos) and pos == list(range(pos[0], pos[0] + len(pos))):
+            a = range(pos[0], pos[0] + len(pos))
+        else:
+            a = tuple(pos)
+        n0 = REPR_CALLS[0]
         try:
             with warnings.catch_warnings():
                 warnings.simplefilter("ignore")
-                d = filter_args(target, list(ign or []), tuple(pos), dict(kwd))
+                d = filter_args(target, list(ign or []), a, dict(kwd))
         except Exception as e:  # noqa  -- the exception class is the observation
             d = None
             r["fa"] = {"raise": type(e).__name__}
         if d is not None:
             r["fa"] = {"ok": norm_fa(d, obj), "order": list(d.keys())}
+        r["fa"]["repr_calls"] = REPR_CALLS[0] - n0
+        r["fa"]["args_modified"] = not (len(a) == len(pos) and all(x is y for x, y in zip(a, pos)))
+        if r["fa"]["args_modified"] and args_as == "shared_list":
+            shared[json.dumps(call[0])] = list(pos)   # report every corruption once, then start again
         out.append(r)
     return {"src": funcs[0][2], "srcs": [x[2] for x in funcs], "res": out}
 
